@@ -29,8 +29,9 @@ META = {
     'level_note': 'Bounded: document shapes to depth 2 exhaustively (scalars drawn from per-category pools), random to depth 4; '
                   'bodies <= a few hundred bytes; histories <= 4 exhaustively, <= 9 randomly.  Documents exclude NaN/Infinity, '
                   'lone surrogates, non-string keys and tuples; form mappings are name -> str | list of >= 2 str with non-empty '
-                  'names (what the form parser itself can produce).  Bodies nested deeper than the interpreter recursion limit '
-                  'are probed separately (reported finding).  Trusted: TLC, json.loads / bytes.decode as classifiers, '
+                  'names (what the form parser itself can produce).  Every top-level scalar of the pools and the empty containers (the falsy documents null, false, 0, "", [], {}) '
+                  'are sent as bodies of their own; ASGI requests are driven with and without a Content-Length header. Bodies nested '
+                  'deeper than the interpreter recursion limit are probed separately.  Trusted: TLC, json.loads / bytes.decode as classifiers, '
                   'engine/drivers.py.',
 }
 
@@ -81,9 +82,14 @@ FPOOL = {
 
 
 def inst_top(shape, rng):
-    """resp.media = None means "no media", so a top-level null is not expressible: wrap it"""
-    d = inst_doc(shape, rng)
-    return [None] if d is None else d
+    return inst_doc(shape, rng)
+
+
+def inst_all(shape):
+    """every pool value of a top-level scalar shape / the empty containers (MC_MediaCache!Tops)"""
+    if shape['k'] == 's':
+        return list(JPOOL[shape['c']])
+    return [[]] if shape['k'] == 'l' else [{}]
 
 
 def inst_doc(shape, rng):
@@ -262,7 +268,10 @@ class Harness:
         return res
 
     def render(self, stack, ctype, doc):
-        """resp.media = doc on a real app -> (body, Content-Type sent)."""
+        """resp.media = doc on a real app -> (body, Content-Type sent).  resp.media = None means
+        "no media", so the body of the document null is written down directly."""
+        if doc is None:
+            return b'null', ctype or 'application/json', None
         self.s = Script()
         self.s.doc, self.s.ctype = doc, ctype
         res = self.call(stack, drivers.Req('GET', target=b'/m'))
@@ -270,10 +279,15 @@ class Harness:
             return None, None, 'rendering failed: status %r exc %r body %r' % (res.status, res.exc, res.body[:100])
         return res.body, res.header('content-type'), None
 
-    def request(self, stack, ctype, body, chunks, calls, expect=None, has_expect=False, reraise=True):
+    def request(self, stack, ctype, body, chunks, calls, expect=None, has_expect=False, reraise=True, framing='length'):
         self.s = Script()
         self.s.calls, self.s.expect, self.s.has_expect, self.s.reraise = list(calls), expect, has_expect, reraise
         hs = [] if ctype is None else [('Content-Type', ctype)]
+        if framing == 'chunked':
+            # no Content-Length: the body ends when the server says so (drivers.Req adds a length otherwise)
+            if stack != 'asgi':
+                raise MachineryError('chunked framing is only expressible on ASGI here')
+            hs.append(('Transfer-Encoding', 'chunked'))
         res = self.call(stack, drivers.Req('POST', target=b'/m', headers=hs, body=body, chunks=chunks))
         evs = self.s.events
         wire = -1
@@ -370,8 +384,8 @@ def run(ctx):
                 'is not a valid serialisation; distinct by hash of the case')
     ctx.trusted_base = ['TLC evaluation of spec/MediaCache.tla', 'json.loads / bytes.decode as classifiers of byte strings',
                         'engine/drivers.py (PEP 3333 / ASGI drivers and protocol monitors)']
-    ctx.assumptions = ['documents: JSON values without NaN/Infinity, lone surrogates, non-string keys, tuples; not a top-level null '
-                       '(resp.media = None means no media)',
+    ctx.assumptions = ['documents: JSON values without NaN/Infinity, lone surrogates, non-string keys, tuples; the body of a top-level '
+                       'null is written directly as b"null" (resp.media = None means no media)',
                        'form mappings: non-empty names -> str | list of >= 2 str (a one-element list is read back as a string)',
                        'whether the first access touches the stream for an empty body is not demanded; later accesses must not',
                        'identity of a re-raised cached error is model detail (D); its kind and status are demanded (P)',
@@ -395,18 +409,20 @@ def run(ctx):
     ra = ctx.tlc('MC_MediaCache', 'MC_MediaCacheA.cfg', timeout=600, workers=4, count=False)
     docs = [j['docs'] for j in ra.json if 'docs' in j][0]
     forms = [j['forms'] for j in ra.json if 'forms' in j][0]
+    tops = [j['tops'] for j in ra.json if 'tops' in j][0]
+    tops.sort(key=digest)
+    topvals = [v for sh in tops for v in inst_all(sh)]       # null, false, true, 0, "", [], {}, ... every pool scalar
     behs = list({digest(j): j for j in ra.json if 'ev' in j}.values())
-    if len(behs) != 2 * (5 * 4 + 2 * 3) * 81 or len(docs) < 700 or len(forms) < 200:
+    if len(behs) != 3 * (5 * 4 + 2 * 3) * 81 or len(docs) < 700 or len(forms) < 200 or len(tops) != 12:
         raise MachineryError('behaviour export incomplete: %d behaviours, %d docs, %d forms' % (len(behs), len(docs), len(forms)))
     docs.sort(key=digest)
     forms.sort(key=digest)
     H = Harness()
     nchunk = ctx.pick(3, 6)
-    ndoc = nform = 0
+    ndoc = nform = nvalid = 0
     replays = 0
-    rt_docs = set()
     for bi, b in enumerate(behs):
-        stack, ctk, handler, bk = b['stack'], b['ctype'], b['handler'], b['body']
+        stack, ctk, handler, bk, framing = b['stack'], b['ctype'], b['handler'], b['body'], b['framing']
         ctype = CT[ctk]
         other = 'asgi' if stack == 'wsgi' else 'wsgi'
         expect, has_expect = None, False
@@ -417,12 +433,17 @@ def run(ctx):
             doc = inst_form(shape, rng)
             rstack, rct = other, ctype
         else:
-            shape = docs[ndoc % len(docs)]
-            ndoc += 1
-            doc = inst_top(shape, rng)
+            if handler == 'json' and bk == 'valid' and nvalid % 2 == 0:
+                # every second valid JSON request carries a top-level scalar / empty container
+                doc = topvals[(nvalid // 2) % len(topvals)]
+            else:
+                shape = docs[ndoc % len(docs)]
+                ndoc += 1
+                doc = inst_top(shape, rng)
+            nvalid += handler == 'json' and bk == 'valid'
             rstack, rct = (other if bi % 3 else stack), (ctype if handler == 'json' else 'application/json')
         sbody, sct, err = H.render(rstack, rct, doc)
-        case0 = {'leg': 'A', 'stack': stack, 'ctype': ctype, 'body_kind': bk, 'doc': doc, 'spec': b['ev']}
+        case0 = {'leg': 'A', 'stack': stack, 'framing': framing, 'ctype': ctype, 'body_kind': bk, 'doc': doc, 'spec': b['ev']}
         if err:
             ctx.violation('P:serialize', case0, err)
             continue
@@ -432,7 +453,6 @@ def run(ctx):
                 expect, has_expect = {}, True
         elif bk == 'valid':
             body, expect, has_expect = sbody, doc, True
-            rt_docs.add(digest(shape))
         elif bk == 'truncated':
             body = truncate_json(sbody, rng)
         else:
@@ -442,7 +462,7 @@ def run(ctx):
         calls = [(w['op'], w['d']) for w in b['ev']]
         for ch in chunkings(len(body), rng, nchunk, stack):
             case = dict(case0, body=list(body), chunks=ch, content_type=send_ct)
-            evs, wire = H.request(stack, send_ct, body, ch, calls, expect, has_expect)
+            evs, wire = H.request(stack, send_ct, body, ch, calls, expect, has_expect, framing=framing)
             replays += 1
             ctx.case(case, nontrivial=True, key=(bi, str(ch)))
             if len(evs) != len(calls):
@@ -465,21 +485,24 @@ def run(ctx):
 
     # ---- leg A2: every document / form shape round-trips, all chunkings for small bodies -----------
     nrt = 0
-    for si, shape in enumerate(docs + forms):
-        isform = si >= len(docs)
-        for rep in range(ctx.pick(1, 4)):
-            doc = inst_form(shape, rng) if isform else inst_top(shape, rng)
+    items = [('top', v) for v in topvals] + [('doc', sh) for sh in docs] + [('form', sh) for sh in forms]
+    for si, (kind, shape) in enumerate(items):
+        isform = kind == 'form'
+        for rep in range(2 if kind == 'top' else ctx.pick(1, 4)):
+            doc = shape if kind == 'top' else inst_form(shape, rng) if isform else inst_top(shape, rng)
             rstack = ('wsgi', 'asgi')[(si + rep) % 2]
             qstack = ('wsgi', 'asgi')[(si // 2 + rep) % 2]
             ctk = rng.choice(('form', 'form_charset')) if isform else rng.choice(('json', 'json_charset', 'vnd_json', 'none'))
             sbody, sct, err = H.render(rstack, CT[ctk], doc)
-            case = {'leg': 'A-roundtrip', 'render_stack': rstack, 'stack': qstack, 'ctype': CT[ctk], 'doc': doc}
+            framing = 'chunked' if qstack == 'asgi' and (si + rep) % 4 < 2 else 'length'
+            case = {'leg': 'A-roundtrip', 'render_stack': rstack, 'stack': qstack, 'framing': framing, 'ctype': CT[ctk], 'doc': doc}
             if err:
                 ctx.violation('P:serialize', case, err)
                 continue
             chs = chunkings(len(sbody), rng, ctx.pick(3, 6), qstack)
             for ch in chs:
-                evs, wire = H.request(qstack, None if ctk == 'none' else sct, sbody, ch, [('get', False), ('media', False)], doc, True)
+                evs, wire = H.request(qstack, None if ctk == 'none' else sct, sbody, ch, [('get', False), ('media', False), ('get', True)],
+                                      doc, True, framing=framing)
                 nrt += 1
                 c2 = dict(case, body=list(sbody), chunks=ch)
                 ctx.case(c2, nontrivial=True, key=('rt', si, rep, str(ch)))
@@ -550,7 +573,6 @@ def leg_b(ctx, H):
         ctype, handler = rng.choice(CT_RANDOM)
         rct = ctype if handler != 'none' and ctype not in (None, '*/*') else ('application/json' if handler != 'form' else ctype)
         doc = rand_form(rng) if handler == 'form' else rand_doc(rng, rng.randint(0, 4))
-        doc = [None] if doc is None else doc
         sbody, sct, err = H.render(('wsgi', 'asgi')[rng.randrange(2)], rct, doc)
         case = {'leg': 'B', 'stack': stack, 'ctype': ctype, 'handler': handler, 'doc': doc}
         if err:
@@ -596,13 +618,14 @@ def leg_b(ctx, H):
                          [L], [L + 3], [max(1, L // 3)]))
         if stack == 'wsgi':
             ch = None
-        evs, wire = H.request(stack, ctype, body, ch, calls, expect, has_expect, reraise=rng.random() < 0.8)
-        case.update(body=list(body), body_kind=bk, chunks=ch, calls=calls)
+        framing = 'chunked' if stack == 'asgi' and rng.random() < 0.5 else 'length'
+        evs, wire = H.request(stack, ctype, body, ch, calls, expect, has_expect, reraise=rng.random() < 0.8, framing=framing)
+        case.update(body=list(body), body_kind=bk, chunks=ch, calls=calls, framing=framing)
         ctx.case(case, nontrivial=len(calls) >= 2 or bk != 'valid', key=i)
         if len(evs) != len(calls):
             ctx.violation('P:exc', case, 'responder did not complete: %d of %d accesses (wire %s)' % (len(evs), len(calls), wire))
             continue
-        t = {'stack': stack, 'handler': handler, 'body': bk, 'wire': wire if wire != 200 else -1,
+        t = {'stack': stack, 'framing': framing, 'handler': handler, 'body': bk, 'wire': wire if wire != 200 else -1,
              'ev': [{k: e[k] for k in ('op', 'd', 'out', 'ek', 'status', 'same', 'eq', 'errsame', 'touched', 'nparse')} for e in evs]}
         k = digest(t)
         if k not in seen:
@@ -624,10 +647,6 @@ def leg_b(ctx, H):
     ctx.progress('leg B done: %d requests, %d distinct traces' % (n, len(traces)))
 
 
-DEEP_SIGNATURE = {'handler': 'json', 'body': 'nesting deeper than the interpreter recursion limit', 'exception': 'RecursionError',
-                  'wire': 500}
-
-
 def probe_deep_nesting(ctx, H):
     """A body that is undecodable only because of its nesting depth is still an undecodable body."""
     n = sys.getrecursionlimit() * 2
@@ -639,9 +658,8 @@ def probe_deep_nesting(ctx, H):
             ok = evs and all(e['out'] == 'err' and e['ek'] == 'malformed' and e['status'] == 400 for e in evs) and wire == 400
             if not ok:
                 e = evs[0] if evs else {}
-                sig = dict(DEEP_SIGNATURE) if (e.get('out') == 'exc' and 'RecursionError' in e.get('info', '') and wire == 500) else None
                 ctx.violation('P:exc', case, 'a %d-deep JSON body gave %s %s -> HTTP %s instead of a 400 malformed-media error'
-                              % (n, e.get('out'), e.get('info'), wire), signature=sig)
+                              % (n, e.get('out'), e.get('info'), wire))
     ctx.traces_validated += 6
 
 
@@ -659,7 +677,7 @@ def replay(ctx, case):
         calls = [(w['op'], w['d']) for w in case['spec']]
         has = case['body_kind'] in ('valid',) or (case['body_kind'] == 'empty' and 'form' in (ct or ''))
         expect = case['doc'] if case['body_kind'] == 'valid' else {}
-        evs, wire = H.request(stack, ct, body, case['chunks'], calls, expect, has)
+        evs, wire = H.request(stack, ct, body, case['chunks'], calls, expect, has, framing=case.get('framing', 'length'))
         for i, (e, w) in enumerate(zip(evs, case['spec'])):
             print(i + 1, 'falcon', e)
             print(i + 1, 'spec  ', w)
@@ -667,13 +685,13 @@ def replay(ctx, case):
         print('wire', wire)
     else:
         calls = [tuple(c) for c in case.get('calls', [('get', False), ('media', False)])]
-        evs, wire = H.request(stack, ct, body, case.get('chunks'), calls, case.get('doc'), True)
+        evs, wire = H.request(stack, ct, body, case.get('chunks'), calls, case.get('doc'), True, framing=case.get('framing', 'length'))
         for e in evs:
             print(e)
         print('wire', wire)
         bk = case.get('body_kind', 'valid')
         handler = case.get('handler') or ('form' if 'form' in (ct or '') else 'json')
-        t = {'stack': stack, 'handler': handler, 'body': bk, 'wire': wire if wire != 200 else -1,
+        t = {'stack': stack, 'framing': case.get('framing', 'length'), 'handler': handler, 'body': bk, 'wire': wire if wire != 200 else -1,
              'ev': [{k: e[k] for k in ('op', 'd', 'out', 'ek', 'status', 'same', 'eq', 'errsame', 'touched', 'nparse')} for e in evs]}
         v = ctx.judge('MediaCacheTrace', [t], workers=1)
         print('verdict', v)
